@@ -28,6 +28,12 @@ from harness import common
 
 LEVEL = "exploration"
 
+# The property statement names positions, vectors and ellipses; which pixel of a
+# psf *map* a lookup returns is not named.  The psf-map clause is therefore
+# evaluated (by TLC) for information only: rejections become a warning in the
+# evidence file unless this switch is turned on.
+PSFMAP_IS_VERDICT = False
+
 NAXIS1, NAXIS2 = 1000, 800          # lattice images: columns, rows
 MAXDEC = 88.0                       # query points stay this far from the poles
 CLAMP_TAN_PM = 5000
@@ -326,6 +332,51 @@ def observe_psf(inst):
     return rec
 
 
+def observe_psfmap(workdir, seed, nmaps, nqueries):
+    """get_psf_sky2sky with a psf map (needs a file): the three planes of the map
+    hold the 1-based row, the 1-based column and 0 of each map pixel."""
+    import numpy as np
+    from astropy.io import fits
+    from astropy.wcs import WCS
+    from AegeanTools.wcs_helpers import WCSHelper
+    recs = []
+    for m in range(nmaps):
+        rng = random.Random("c16/psfmap/%d/%d" % (seed, m))
+        inst = {"proj": rng.choice(["SIN", "ZEA", "TAN"]), "nx": 400, "ny": 300,
+                "ra0": rng.uniform(20, 340), "dec0": rng.uniform(-60, 60), "crpix1": 200.5,
+                "crpix2": 150.5, "s1": 30.0, "s2": 30.0, "parity": -1, "hdr": "cdelt",
+                "a": 0.03, "b": 0.02, "pa": 20.0}
+        h = build_header(inst)
+        nr, nc = rng.randint(6, 12), rng.randint(6, 12)
+        ph = fits.Header()
+        ph["CTYPE1"], ph["CTYPE2"] = h["CTYPE1"], h["CTYPE2"]
+        ph["CRVAL1"], ph["CRVAL2"] = h["CRVAL1"], h["CRVAL2"]
+        ph["CRPIX1"], ph["CRPIX2"] = nc / 2.0 + 0.5, nr / 2.0 + 0.5
+        ph["CDELT1"], ph["CDELT2"] = -0.3, 0.3
+        cube = np.zeros((3, nr, nc), dtype=np.float32)
+        rr, cc = np.mgrid[0:nr, 0:nc]
+        cube[0], cube[1] = rr + 1, cc + 1
+        path = os.path.join(workdir, "psfmap_%d.fits" % m)
+        fits.PrimaryHDU(cube, header=ph).writeto(path, overwrite=True)
+        pw = WCS(fits.getheader(path), naxis=2)
+        for q in range(nqueries):
+            row, col = rng.randint(1, nr), rng.randint(1, nc)
+            dr, dc = rng.uniform(-0.3, 0.3), rng.uniform(-0.3, 0.3)
+            rec = {"id": "psfmap|m%d|q%d" % (m, q), "kind": "psfmap", "err": "",
+                   "want_row": row, "want_col": col, "off_row_mpx": int(dr * 1000),
+                   "off_col_mpx": int(dc * 1000), "job": ["psfmap", m, q, seed]}
+            try:
+                ra, dec = pw.all_pix2world([[col + dc, row + dr]], 1)[0]
+                w = WCSHelper.from_header(h, psf_file=path)
+                v = w.get_psf_sky2sky(float(ra), float(dec))
+                rec["got_row"], rec["got_col"] = int(round(float(v[0]))), int(round(float(v[1])))
+            except Exception as e:
+                rec["err"] = "%s: %s" % (type(e).__name__, e)
+            recs.append(rec)
+        os.remove(path)
+    return recs
+
+
 def observe(job):
     """job = (configuration, k, seed, [(kind, arg), ...]) -> list of records"""
     c, k, seed, kinds = job
@@ -498,15 +549,33 @@ def run(ctx):
         raise common.MachineryError("too many configurations without an admissible query point: %d" % skipped)
 
     rejected = []
-    for i, part in enumerate(common.chunks(recs, 6000)):
+    for i, part in enumerate(common.chunks(recs, 10000)):
         rejected += validate(ctx, part, "wcs_trace_%d" % i)
     report(ctx, rejected)
+
+    # informational: psf-map pixel lookup
+    _init()
+    pm = observe_psfmap(ctx.workdir, ctx.seed, 3 if quick else 12, 24)
+    pm_rej = validate(ctx, pm, "wcs_psfmap")
+    ctx.notes["psf_map_lookup_rejections"] = "%d of %d" % (len(pm_rej), len(pm))
+    if pm_rej:
+        r0, f0 = pm_rej[0]
+        if PSFMAP_IS_VERDICT:
+            for r, f in pm_rej:
+                ctx.violation("psfmap fails=%s" % ",".join(f), {"job": r["job"], "fails": f, "record": r})
+        else:
+            ctx.warnings.append(
+                "psf map lookup (outside the property statement, not a verdict): %d of %d queries "
+                "returned the psf of a different map pixel than the one containing the position, "
+                "e.g. %s: position in 1-based map pixel (row %s, col %s) offset (%d, %d) mpx -> %s" % (
+                    len(pm_rej), len(pm), r0["id"], r0["want_row"], r0["want_col"], r0["off_row_mpx"],
+                    r0["off_col_mpx"], r0["err"] or "pixel (row %s, col %s)" % (r0.get("got_row"), r0.get("got_col"))))
 
     # informational: the minor-axis clause without its linear-regime premise
     big = [r for r in recs if r["kind"] == "conv" and not r["err"] and
            r["e_a_in"] // 1000 * r["tanrho_pm"] > 5000000]
     strict_rej = []
-    for i, part in enumerate(common.chunks(big, 6000)):
+    for i, part in enumerate(common.chunks(big, 10000)):
         strict_rej += validate(ctx, part, "wcs_strict_%d" % i, strict=True)
     normal = {r["id"] for r, _ in rejected}
     only = [(r, f) for r, f in strict_rej if r["id"] not in normal]
@@ -556,6 +625,13 @@ def run(ctx):
 
 def replay(ctx, rec):
     _init()
+    if rec["detail"]["job"][0] == "psfmap":
+        _, m, q, seed = rec["detail"]["job"]
+        rs = [r for r in observe_psfmap(ctx.workdir, seed, m + 1, 24) if r["id"] == "psfmap|m%d|q%d" % (m, q)]
+        for r, f in validate(ctx, rs, "replay"):
+            ctx.violation("psfmap fails=%s" % ",".join(f), {"job": r["job"], "fails": f, "record": r})
+        ctx.count(evaluations=1, nontrivial=1, traces=1)
+        return
     c, k, seed, kinds = rec["detail"]["job"]
     rs = observe((c, k, seed, [tuple(x) for x in kinds]))
     if rs is None:
